@@ -72,7 +72,7 @@ def fresh_returning(g: CallGraph, classes):
 
 def run(repo, res, tier):
     res.rules = ["D1 swap-restore on all exits", "D2 who-may-write with style_temp_edit dominance", "D2b default_settings read-only",
-                 "D3 placement frame algebra", "D5 SI prefix table", "D6 animation frame index = labelled path index", "D7 path line keeps the path order", "D8 path index selection clamps"]
+                 "D3 placement frame algebra", "D3d placement homogeneous in model/object/display units", "D5 SI prefix table", "D6 animation frame index = labelled path index", "D7 path line keeps the path order", "D8 path index selection clamps"]
     g = CallGraph(repo)
     roots = [r for r in ROOTS if r in g.nodes]
     res.require("magpylib._src.display.display:show" in g.nodes, "anchor vanished: display.show")
@@ -210,6 +210,7 @@ def run(repo, res, tier):
     import origin_rules
     origin_rules.display_mutations(repo, res, rule="D2c")
     d3(repo, res)
+    d3d(repo, res)
     d5(repo, res)
     d6(repo, res)
     d7(repo, res)
@@ -355,6 +356,55 @@ def d8(repo, res):
                         "last one (and negative indices lose their from-the-end meaning after np.unique)", x.lineno))
     if not clamps and not mods:
         res.add(Finding("D8", m.rel, "get_rot_pos_from_path", fn, "indices beyond the path end are no longer clamped to the last pose", fn.lineno))
+
+
+def d3d(repo, res):
+    """D3d placement in units: typed with three length units - model units (the trace's own coordinates), object units (metre, the unit
+    of `position`) and display units (what the axes announce) - `scale` converts model -> object and `length_factor` object -> display.
+    Every sum must be homogeneous (`vertices * scale + position`, never `vertices + position`) and the coordinates written back are
+    display lengths.  Reuses the DIM lattice with its three exponents read as (model, object, display)."""
+    import common
+    from absint import ARepo, Interp, Const as AConst, Unknown as AUnknown, FuncRef, Seq as ASeq
+    from dimdom import D, DimDomain
+    arepo = ARepo(common.REPO)
+    mod = arepo.module("magpylib._src.display.traces_utility")
+    if mod is None or "place_and_orient_model3d" not in mod.funcs:
+        from common import AnalysisError
+        raise AnalysisError("anchor vanished: traces_utility.place_and_orient_model3d")
+    fn = mod.funcs["place_and_orient_model3d"]
+    dom = DimDomain()
+    dom.repo_summaries = {"get_vertices_from_model": lambda d, a, k, n: ASeq([D(l=1), AUnknown("coordsargs"), AUnknown("useargs")], "py")}
+    it = Interp(arepo, dom)
+    it.tolerant = True
+    reshaped = []
+    orig = dom.call_external
+
+    def spy(q, args, kwargs, node):
+        if q.endswith("reshape") and args:
+            reshaped.append((node, args[0]))
+        return orig(q, args, kwargs, node)
+    dom.call_external = spy
+    have = {a.arg for a in fn.args.args + fn.args.kwonlyargs}
+    params = dict(model_kwargs=AUnknown("model"), model_args=AConst(None), orientation=AConst(None), position=D(x=1), coordsargs=AConst(None),
+                  scale=D(l=-1, x=1), return_model_args=AConst(False), return_coordsargs=AConst(False), length_factor=D(x=-1, m=1))
+    params = {k: v for k, v in params.items() if k in have}
+    res.require({"position", "scale", "length_factor"} <= set(params), "anchor vanished: position/scale/length_factor parameters of place_and_orient_model3d")
+    it.call_func(FuncRef(mod, fn), [], params, fn)
+    mism = [f for f in dom.findings if f.kind in ("add-mismatch", "store-mismatch", "join-mismatch")]
+    last = reshaped[-1][1] if reshaped else None
+    out_ok = isinstance(last, D) and tuple(last.dim) == (0, 0, 1)
+    res.evaluations += dom.nexpr
+    res.ob("D3d:placement is homogeneous in (model, object, display) units", not mism and out_ok,
+           {"rule": "D3d", "typed_expressions": dom.nexpr, "written_back": repr(last), "mismatches": [f.msg for f in mism]})
+    for f in mism:
+        res.add(Finding("D3d", "magpylib/_src/display/traces_utility.py", "place_and_orient_model3d", f.node, f"adds lengths of different units ({f.msg}; exponents are "
+                        "model, object, display units): the model's own `scale` / the unit factor is applied to the wrong summand, so a custom model on an "
+                        "off-origin object is drawn at a scaled position", getattr(f.node, "lineno", None)))
+    if not mism and not out_ok and last is not None and isinstance(last, D):
+        res.add(Finding("D3d", "magpylib/_src/display/traces_utility.py", "place_and_orient_model3d", reshaped[-1][0], f"the coordinates written back are typed {last!r}, "
+                        "not display lengths: a unit conversion (scale / length_factor) is missing or applied twice", getattr(reshaped[-1][0], "lineno", None)))
+    elif not mism and last is None:
+        res.undecided.append("D3d: the coordinates written back by place_and_orient_model3d were not followed")
 
 
 def d3(repo, res):
